@@ -86,7 +86,13 @@ Print Assumptions C04_handlers_keep_after_possible_flip.
 
 (* For every tail r and handler table txon such that every class that can leave r is handled by the keep-files arm:
    after ANY event list (failures before the flip, rollbacks, crashes, and exceptions of any class leaving the tail of
-   any commit at any point after its flip) every file referenced by a committed version is present. *)
+   any commit at any point after its flip) every file referenced by a committed version is present.
+   WHAT THIS ADDS, HONESTLY: under the hypothesis tail_safe an enabled TEscape acts exactly as Fault.v's EAbort
+   (C04_post_flip_escape_is_abort below), so the three C04_post_flip_* theorems are C04_no_damage / C04_unreachable /
+   C04_liveness transported to the machine WITHOUT the rollback guard; everything they add is the hypothesis, which is
+   a decidable fact about the regenerated tail and handler table (C04_tail_regenerated_safe: no call of the tail outside
+   a swallowing `try` -- storage, lock, `raise`, or plain fallible computation) and whose necessity is
+   C04_unguarded_tail_damages.  Like every theorem here they assume `sound c` (the lock / CAS assumptions of C01). *)
 Theorem C04_post_flip_no_damage : forall r txon c m0 kind mr r0 next evs,
   sound c -> (forall f, In f r0 -> (f < next)%nat) -> tail_safe txon r = true ->
   let x := trun r txon c (finit m0 kind mr r0 next) evs in
@@ -108,6 +114,48 @@ Theorem C04_post_flip_liveness : forall r txon c m0 kind mr r0 next evs,
   Inv c (fw (trun r txon c (finit m0 kind mr r0 next) evs)).
 Proof. exact tail_keeps_inv. Qed.
 Print Assumptions C04_post_flip_liveness.
+
+(* The reduction the three theorems above rest on: with a safe tail, an exception leaving a commit call after its flip is
+   Fault.v's EAbort -- the lock is released on the way out and nothing else happens. *)
+Theorem C04_post_flip_escape_is_abort : forall r txon c x a e last x',
+  tail_safe txon r = true -> tstep r txon c x (TEscape a e last) = Some x' ->
+  x' = fstep_skip c x (FProto {| e_actor := a; e_kind := EAbort |}).
+Proof. exact safe_escape_is_abort. Qed.
+Print Assumptions C04_post_flip_escape_is_abort.
+
+(* "A raise caused by a storage error leaves the pre-state."  Transaction.commit reports an exception as a plain storage
+   error through its deleting arm (`except Exception: self._rollback(); raise`); f_dead x a is the ghost "a has run that
+   arm".  In every run of the unguarded tail machine, a transaction that ran it never flipped and its operation is not
+   part of the table.  Before the flip this is the rollback guard of Fault.v (the strict run of the correspondence refuses
+   a real trace that deletes after a flip); after the flip it is tail_safe. *)
+Theorem C04_clean_pre : forall r txon c m0 kind mr r0 next evs,
+  sound c -> (forall f, In f r0 -> (f < next)%nat) -> tail_safe txon r = true ->
+  let x := trun r txon c (finit m0 kind mr r0 next) evs in
+  forall a, f_dead x a = true -> flipped (pcof x a) = false /\ ~ In a (map snd (w_hist (fw x))).
+Proof. exact clean_raise_pre. Qed.
+Print Assumptions C04_clean_pre.
+
+(* ... on the REGENERATED tables: a failing commit-point write is reported as a plain storage error only where a write
+   that raises is guaranteed not to have happened (no conditional write, atomic_write_failures), and no Exception can
+   leave any regenerated tail -- so a storage error is never reported by a call whose pointer write has landed. *)
+Theorem C04_clean_pre_regenerated :
+  (forall casb atomic, gen_flip_exn casb atomic FEError = XOther -> casb = false /\ atomic = true)
+  /\ unguarded gen_tail_file_ops = false /\ unguarded gen_tail_meta_only = false /\ unguarded gen_tail_delete_snapshot = false.
+Proof. exact clean_raise_regenerated. Qed.
+Print Assumptions C04_clean_pre_regenerated.
+
+(* "When the outcome of the pointer write is unknowable the error is reported as ambiguous and no file written by the
+   transaction is deleted": on the regenerated tables, every failure of the commit-point write other than the store's
+   own refusal is AMBIGUOUS on a conditional-write store and on a store whose failed writes may have been applied; the arm
+   that handles AMBIGUOUS keeps the transaction's files and the metadata file on every attempt (never a retry); and in
+   the machine an ambiguous error leaving a commit call -- for ANY tail -- deletes nothing and marks nothing rolled back. *)
+Theorem C04_ambiguous :
+  (forall casb atomic, (casb = true \/ atomic = false) -> gen_flip_exn casb atomic FEError = XAmbiguous)
+  /\ (forall last, gen_tx_on XAmbiguous last = TxRollbackKeep) /\ gen_discard_on XAmbiguous = false
+  /\ (forall r c x a last x', tstep r gen_tx_on c x (TEscape a XAmbiguous last) = Some x' ->
+       f_present x' = f_present x /\ f_written x' = f_written x /\ f_dead x' = f_dead x).
+Proof. exact ambiguous_keeps. Qed.
+Print Assumptions C04_ambiguous.
 
 (* The REGENERATED tails (file-level commits, metadata-only commits) are safe for the REGENERATED handler table, and the
    tail of SnapshotManager.delete_snapshot (no Transaction around it) has no call whose Exception is not swallowed. *)
@@ -172,4 +220,24 @@ Example C04_tail_nonvacuous :
   /\ tail_accepts gen_tail_file_ops [TKRelease; TKDelete; TKDelete; TKDelete] = true
   /\ tail_accepts gen_tail_file_ops [TKRelease; TKExists; TKDelete] = false
   /\ tail_accepts_prefix gen_tail_file_ops [TKRelease; TKDelete] = true.
+Proof. vm_compute. repeat split. Qed.
+
+(* Non-vacuity of C04_clean_pre / C04_ambiguous: (1) a storage error before the flip, handled by the deleting arm: f_dead holds,
+   the transaction is not in the history, its file is gone, the base files stay; (2) a tail with one unguarded fallible
+   computation (TKCompute) is NOT safe for the regenerated table, an Exception leaves it, the deleting arm runs on a FLIPPED
+   transaction: f_dead holds although the transaction is in the history -- the conclusion of C04_clean_pre fails without its
+   hypothesis; (3) an ambiguous error on a tail that lets it escape is enabled and keeps everything; (4) TKCompute steps are
+   invisible to the word check. *)
+Definition ex_bad_tail := TSeq (TCall TKRelease true) (TSeq (TCall TKCompute false) (TStar (TCall TKDelete true))).
+Example C04_clean_pre_nonvacuous :
+  (let y := trun gen_tail_file_ops gen_tx_on ex_cfg ex_init
+      (map TF [FWrite 0; FProto (ev 0 (EBegin 0)); FProto (ev 0 (ELockTry true)); FProto (ev 0 EAbort); FRollback 0]%nat) in
+   f_dead y 0%nat = true /\ w_hist (fw y) = [] /\ f_present y = [0; 1]%nat)
+  /\ tail_safe gen_tx_on ex_bad_tail = false
+  /\ (let z := trun ex_bad_tail gen_tx_on ex_cfg ex_init (ex_commit ++ [TEscape 0%nat XOther false]) in
+      f_dead z 0%nat = true /\ map snd (w_hist (fw z)) = [0%nat] /\ all_present z = false)
+  /\ (match tstep ex_bad_tail gen_tx_on ex_cfg (trun ex_bad_tail gen_tx_on ex_cfg ex_init ex_commit) (TEscape 0%nat XAmbiguous false) with
+      | Some z => f_present z = [3; 2; 0; 1]%nat /\ f_dead z 0%nat = false | None => False end)
+  /\ tail_accepts (observable ex_bad_tail) [TKRelease; TKDelete] = true
+  /\ tail_accepts ex_bad_tail [TKRelease; TKDelete] = false.
 Proof. vm_compute. repeat split. Qed.
